@@ -84,8 +84,11 @@ def cases(tier, seed):
     for m in families.models():
         if in_fragment(m):
             yield ('S', m)
+    for m in rt.align_models(tier):
+        yield ('A', m)
     for m in rt.collision_models():
-        yield ('D', m)
+        if in_fragment(m):
+            yield ('D', m)
     for t in families.deep_trees():
         if 'XOR' not in sh.tree_ops(t):
             yield ('K', cm.on_carrier([t]))
